@@ -874,14 +874,12 @@ def run(ck, prog, ctx):
             # distributive form:  (A & B) + [a if a is in B+b] + [b if b is in A+a].  Whether the guards are the right membership tests is not evaluated;
             # what IS decided: each guarded insert is reached by every path that returns (its guard is evaluated, no early return in front of it)
             ck.undecided("ROLE", name + "/ids", "%s intersects the exclusive sets and inserts the terms' own ids afterwards (under membership tests): the distributive form is not evaluated" % name, where=b0.where(t.line))
-            for n_i, (bi2, t2) in enumerate(own_inserts):
-                guards_ = [gbi for gbi, gt in b0.calls() if gbi != bi2 and any(b0.edge_dominates(e_, bi2) for e_ in positive_edges(b0, pvn, gbi))]
-                if not guards_:
-                    continue
-                g_ = guards_[-1]
-                reached = all(b0.dominates(g_, e_) for e_ in b0.exits)
-                who = sorted(b0.local_name(p_) for p_ in params_of(pv.of_operand(b0, t2.args[1]), b0.id))
-                ck.ob("ROLE", "%s/ids/insert/%d" % (name, n_i), reached, "%s: the test that decides whether %s's own id is added %s" % (name, "/".join(who) or "a term", "is evaluated on every path" if reached else "is SKIPPED by an early return: for a term without common strict ancestors (the root) its own id is missing from the inclusive set"), where=b0.where(t2.line))
+            from engines import success_path_avoiding as _spa
+            decision_blocks = {bi2 for bi2, _t2 in own_inserts}
+            for bi2, t2 in own_inserts:
+                decision_blocks |= {gbi for gbi, gt in b0.calls() if gbi != bi2 and any(b0.edge_dominates(e_, bi2) for e_ in positive_edges(b0, pvn, gbi))}
+            skipped_ = _spa(b0, decision_blocks)
+            ck.ob("ROLE", "%s/ids/decided-on-every-path" % name, not skipped_, "%s: %s" % (name, "every path that returns decides about the terms' own ids (a guarded insert or its test)" if not skipped_ else "some path RETURNS without deciding about the terms' own ids (an early return in front of the guarded inserts): for a term without common strict ancestors (the root) its own id is missing from the inclusive set"), where=b0.where(own_inserts[0][1].line))
         elif need_ids is True:
             ck.ob("ROLE", name + "/ids", "id" in f0 and "id" in f1, "%s adds %s (expected both terms' own ids)" % (name, sorted((f0 | f1) & {"id"}) or "no id"), where=b.where(t.line))
         elif need_ids is False:
